@@ -1,4 +1,5 @@
 import MimicProofs.Control
+import Mimic.Extracted.ServerCode
 import MimicProofs.ControlCode
 /-!
 # C18 — Connection ids are unique among live connections and address the right one
@@ -140,5 +141,21 @@ theorem code_ids_unique_and_admission (sid n bits ms : Nat) (hn : 0 < n) (ops : 
 /-- non-vacuity at code level: the translated class on a sequence space of two: two arrivals, the third is refused -/
 example : ((Mimic.Extracted.ControlCode.add 2 (MimicProofs.ControlCode.codeRun
       (Mimic.Extracted.ControlCode.init 1 2 16 65536 : MimicProofs.ControlCode.LC) [Op.add, Op.add]) 0).isSome = false) := by decide
+
+/-! ### the accept callback (`Mimic.Extracted.ServerCode`, read off `MysqlServer._client_connected_cb` on every run) -/
+section server
+open Mimic.Extracted.ServerCode
+
+/-- **a client refused because the registry is full gets ERR 1040 and leaves no trace in the registry**: no `remove` is issued for
+    it (its id was never handed out: a `remove` would hit whoever holds the id the constructor left in the attribute), and the
+    only id ever removed is the one `control.add` returned for this very connection -/
+theorem code_full_registry_refuses (s : StartOut) :
+    (client_connected_cb .ok .too_many s).1 = [.factory, .add, .write_err (some 1040)] ∧
+    ∀ f a x, SEv.remove x ∈ (client_connected_cb f a s).1 → a = .id ∧ x = .added_id := by
+  refine ⟨by cases s <;> rfl, ?_⟩
+  intro f a x
+  cases f <;> cases a <;> cases s <;> simp [client_connected_cb]
+
+end server
 
 end MimicProps.C18
